@@ -213,7 +213,7 @@ Definition case_follow (input0 : sx) : bool :=
 Definition wild_base_is_link (sroot : snode) (src : bytes) : bool :=
   let cs0 := match src with [] => [[]] | _ => comps (clean src) end in
   let cs := map (fun c => match c with [] => [sep] | _ => c end) cs0 in
-  let '(p1, p2) := split_wild cs in
+  let '(p1, p2) := split_wild_e cs in
   let d1 := match p1 with [] => [] | _ => clean (joinc p1) end in
   match p2 with
   | [] => false
